@@ -39,5 +39,39 @@ Example C03_examples :
      OEv (Connected (261, 4) true); ORet (URemove 261) (RRemove true); OEv (Message (261, 4) 7)].
 Proof. vm_compute. reflexivity. Qed.
 
+(* connect_sync (network.rs) = connect() then is_ready() every millisecond; Some true -> Ok,
+   None -> Err(ConnectionRefused).  For EVERY script and every moment at which connect_sync may
+   poll: if the id came from connect(), the user did not remove() it, and the history is outside
+   the known class K1, the answer is truthful: Ok only for a connection whose Connected(_, true)
+   was delivered and that has not been disconnected; ConnectionRefused only for a connection
+   that was never established; polling goes on only while neither outcome was delivered. *)
+Theorem C03_connect_sync_truthful_outside_K1 : forall (a : N) (ls : list dlabel) (id : rid),
+  a <= max_adapter gen_layout -> cost_labels ls <= max_base gen_layout + 1 ->
+  resource_type gen_layout id = Remote ->
+  c_issued (summ_of id (snd (drun (dinit a) ls))) = true ->
+  c_removed (summ_of id (snd (drun (dinit a) ls))) = false ->
+  K1_class (summ_of id (snd (drun (dinit a) ls))) = false ->
+  sync_truthful (summ_of id (snd (drun (dinit a) ls))) (is_ready_answer (fst (drun (dinit a) ls)) id).
+Proof. exact (connect_sync_truthful_outside_K1 (proj1 C03_gen_obligation)). Qed.
+
+(* KNOWN FINDING K1 (known_findings.json): without the K1 exclusion the statement is false of the
+   faithful model, and of the code: the peer accepts and closes before connect_sync's next poll;
+   Connected(_, true) and Disconnected are delivered, the registry entry is gone, is_ready()
+   answers None and connect_sync reports ConnectionRefused for a connection that WAS established. *)
+Lemma C03_connect_sync_full_statement_refuted :
+  exists (ls : list dlabel) (id : rid),
+    let m := summ_of id (snd (drun (dinit 5) ls)) in
+    c_issued m = true /\ c_removed m = false /\ K1_class m = true /\
+    c_est m = true /\ is_ready_answer (fst (drun (dinit 5) ls)) id = None.
+Proof.
+  exists [LCall (UConnect true 4);
+          LProcess 5 Write {| a_race0 := []; a_pending := PReady; a_cb_conn := []; a_chunks := []; a_read := RWaitNextEvent;
+                                a_race := []; a_cb_disc := []; a_accepts := [] |};
+          LProcess 5 Read {| a_race0 := []; a_pending := PReady; a_cb_conn := []; a_chunks := []; a_read := RDisconnected;
+                               a_race := []; a_cb_disc := []; a_accepts := [] |}], 5.
+  vm_compute. repeat split.
+Qed.
+
 Print Assumptions C03_gen_obligation.
+Print Assumptions C03_connect_sync_truthful_outside_K1.
 Print Assumptions C03_lifecycle_regular.
